@@ -161,6 +161,155 @@ def replay_quorum(ctx, r, d):
     return 0 if res[0][0] == res[0][1] else 1
 
 
+# ------------------------------------------------------------------------------ (V) trace validation
+
+def sim_eval(d, sched_lines, tag="shr"):
+    """Execute an explicit schedule (N line + EV lines) on the real RawNodes and validate the
+    resulting trace.  Returns (verdict line or None, trace text)."""
+    (d / (tag + "_sched.txt")).write_text("\n".join(sched_lines) + "\n")
+    rc1, o1 = lib.sh("%s simfile %s_sched.txt %s_trace.txt" % (lib.BUILD / HARNESS, tag, tag), cwd=d, timeout=120)
+    if rc1 != 0:
+        return None, "simfile failed: " + o1[-1500:]
+    rc2, o2 = lib.sh("%s trace %s_trace.txt %s_verdict.txt" % (lib.BUILD / RUNNER, tag, tag), cwd=d, timeout=300)
+    if rc2 != 0:
+        return None, "raftrun trace failed: " + o2[-1500:]
+    v = (d / (tag + "_verdict.txt")).read_text().splitlines()
+    return (v[0] if v else None), (d / (tag + "_trace.txt")).read_text()
+
+
+def fail_event(verdict):
+    for tok in verdict.split():
+        if tok.startswith("event="):
+            return int(tok[6:])
+    return None
+
+
+def fail_reason(verdict):
+    for tok in verdict.split():
+        if tok.startswith("reason="):
+            return tok[7:]
+    return "?"
+
+
+def sim_shrink(d, header, evs, budget=400):
+    """ddmin over the EV lines: keep any sub-schedule on which validation still fails."""
+    def failing(cand):
+        v, _ = sim_eval(d, [header] + cand)
+        return v is not None and " FAIL " in v, v
+    ok, v = failing(evs)
+    if not ok:
+        return evs, v
+    # cut everything after the failing event
+    fe = fail_event(v)
+    cur = evs
+    used = 1
+    chunk = max(1, len(cur) // 2)
+    while chunk >= 1 and used < budget:
+        i = 0
+        progressed = False
+        while i < len(cur) and used < budget:
+            cand = cur[:i] + cur[i + chunk:]
+            used += 1
+            okc, vc = failing(cand)
+            if okc:
+                cur, v, progressed = cand, vc, True
+            else:
+                i += chunk
+        if chunk == 1 and not progressed:
+            break
+        chunk = chunk // 2 if chunk > 1 else (1 if progressed else 0)
+    return cur, v
+
+
+def schedule_of(trace_path, k):
+    """header and EV lines of schedule k in a traces file."""
+    header, evs, on = None, [], False
+    with open(trace_path) as f:
+        for line in f:
+            if line.startswith("SCHEDULE "):
+                on = line.split()[1] == str(k)
+                continue
+            if not on:
+                continue
+            if line.startswith("END"):
+                break
+            if line.startswith("N "):
+                header = line.strip()
+            elif line.startswith("EV "):
+                evs.append(line.strip())
+    return header, evs
+
+
+def sim_part(ctx, d):
+    """Returns (stats, violation-dict-or-None, broken-or-None)."""
+    if ctx.tier == "quick":
+        batches = [(0, 1500, 400), (1000000, 20, 2000)]
+    else:
+        batches = [(0, 40000, 400), (1000000, 600, 3000), (2000000, 10, 10000)]
+    tot_sched = tot_events = nontriv = 0
+    hashes = set()
+    agg = dict(elections=0, commits=0, truncs=0, restarts=0)
+    maxterm = maxcommit = 0
+    samples = []
+    viol = None
+    for bi, (first, count, nev) in enumerate(batches):
+        b = d / ("sim%d" % bi)
+        b.mkdir()
+        rc, out = lib.sh("%s sim . %d %d %d %d" % (lib.BUILD / HARNESS, ctx.seed, first, count, nev), cwd=b, timeout=3000)
+        if rc != 0:
+            return {}, None, "harness_raft sim failed: " + out[-2000:]
+        rc, out = lib.sh("%s trace traces.txt verdicts.txt" % (lib.BUILD / RUNNER), cwd=b, timeout=6000)
+        if rc != 0:
+            return {}, None, "raftrun trace failed: " + out[-2000:]
+        for line in (b / "verdicts.txt").read_text().splitlines():
+            tok = line.split()
+            if len(tok) < 3:
+                continue
+            tot_sched += 1
+            if tok[2] == "OK":
+                kv = dict(t.split("=", 1) for t in tok[3:] if "=" in t)
+                tot_events += int(kv["events"])
+                for key in agg:
+                    agg[key] += int(kv[key])
+                maxterm = max(maxterm, int(kv["maxterm"]))
+                maxcommit = max(maxcommit, int(kv["maxcommit"]))
+                if kv["hash"] not in hashes and int(kv["elections"]) >= 1 and int(kv["maxcommit"]) >= 2:
+                    nontriv += 1
+                hashes.add(kv["hash"])
+                if len(samples) < 3 and int(kv["elections"]) >= 2 and int(kv["truncs"]) >= 1:
+                    samples.append("schedule %s: %s" % (tok[1], " ".join(tok[3:-1])))
+            elif viol is None:
+                k = tok[1]
+                header, evs = schedule_of(b / "traces.txt", k)
+                fe = fail_event(line)
+                if fe:
+                    evs = evs[:fe]
+                shr, v = sim_shrink(b, header, evs)
+                v2, trace = sim_eval(b, [header] + shr, tag="final")
+                viol = dict(kind="trace-validation", schedule=int(k), seed=ctx.seed,
+                            reason=fail_reason(v2 or line), verdict=(v2 or line),
+                            original_verdict=line, header=header, events=shr,
+                            trace_tail=trace.splitlines()[-12:],
+                            theorem="C15_check_step_sound: an accepted step is a step of the model's transition relation; this step is NOT one (or the implementation panicked / broke a safety predicate)",
+                            note="events: C campaign, P propose, T tick, R restart, D/DD deliver (dup), FP forwarded proposal, X* = crash before persisting; messages/states are in the model's numbering (index = real index - 1); replay with ./check C15 --replay <this file>")
+    stats = dict(sim_schedules=tot_sched, sim_events=tot_events, sim_distinct_nontrivial=nontriv,
+                 sim_distinct=len(hashes), sim_elections=agg["elections"], sim_commit_advances=agg["commits"],
+                 sim_log_truncations=agg["truncs"], sim_restarts=agg["restarts"], sim_max_term=maxterm,
+                 sim_max_commit=maxcommit, sim_samples=samples,
+                 sim_scope="; ".join("%d schedules x %d events" % (c, n) for _, c, n in batches))
+    return stats, viol, None
+
+
+def replay_sim(ctx, r, d):
+    v, trace = sim_eval(d, [r["header"]] + r["events"], tag="replay")
+    if v is None:
+        print("replay: could not run:", trace)
+        return 1
+    print("\n".join(trace.splitlines()[-14:]))
+    print("verdict:", v)
+    return 1 if " FAIL " in v else 0
+
+
 # ------------------------------------------------------------------------------ driver
 
 def run(ctx):
@@ -179,6 +328,8 @@ def run(ctx):
             return 1
         if r.get("kind", "").startswith("impl-vs-model quorum"):
             return replay_quorum(ctx, r, d)
+        if r.get("kind") == "trace-validation":
+            return replay_sim(ctx, r, d)
         print("replay: nothing to re-run for kind=%r: %s" % (r.get("kind"), r.get("what", "")[:500]))
         return 1
     viol = None
@@ -186,6 +337,10 @@ def run(ctx):
     if not b2:
         stats, viol, qb = quorum_part(ctx, d)
         broken = broken or qb
+        if viol is None and not qb:
+            st2, viol, sb = sim_part(ctx, d)
+            stats.update(st2)
+            broken = broken or sb
     rc = 0
     if viol:
         lib.violation(PID, viol)
@@ -199,12 +354,17 @@ def run(ctx):
         if kf["kind"] == "open":
             print("KNOWN-FINDING: property=%s %s %s" % (PID, kf["id"], kf["text"]))
     cov.update(dict(
-        evaluations=stats.get("quorum_cases", 0),
-        distinct_nontrivial=stats.get("quorum_distinct_nontrivial", 0),
-        rule="(D) " + stats.get("quorum_scope", "-") + "; a case is non-trivial when its first config is non-empty and the four answers are not the all-default tuple; distinct = distinct case lines",
-        samples=stats.get("quorum_samples", ["(none)"]),
+        evaluations=stats.get("quorum_cases", 0) + stats.get("sim_events", 0),
+        distinct_nontrivial=stats.get("quorum_distinct_nontrivial", 0) + stats.get("sim_distinct_nontrivial", 0),
+        rule="(D) " + stats.get("quorum_scope", "-") + "; a quorum case is non-trivial when its first config is non-empty and the four answers are not the all-default tuple; distinct = distinct case lines. "
+             "(V) " + stats.get("sim_scope", "-") + " on 1-5 real RawNodes (seeded adversarial scheduler: deliver/duplicate/drop/reorder, partitions, tick, propose, campaign, crash-restart, crash before persisting); every event is one evaluation, checked by the extracted check_step (exact equality of term/vote/commit/role/lead/log with the model, replies present, other messages allowed by emit_okb) plus the extracted safety predicates; a schedule is non-trivial when a leader was elected and an entry beyond the leader's empty entry was committed; distinct = distinct md5 of the event sequence",
+        samples=stats.get("quorum_samples", ["(none)"]) + stats.get("sim_samples", []),
         exhaustive=False,
-        correspondence="quorum.{MajorityConfig,JointConfig}.{CommittedIndex,VoteResult} (built from VERIF_REPO working tree) vs extracted Gallina majority_/joint_ functions, compared on every case",
+        traces_validated_against_impl=stats.get("sim_schedules", 0),
+        transitions=stats.get("sim_events", 0),
+        quorum_cases=stats.get("quorum_cases", 0),
+        sim=dict((k, v) for k, v in stats.items() if k.startswith("sim_") and k != "sim_samples"),
+        correspondence="(D) quorum.{MajorityConfig,JointConfig}.{CommittedIndex,VoteResult} (built from VERIF_REPO working tree) vs extracted Gallina majority_/joint_ functions, compared on every case; (V) raft.RawNode + MemoryStorage (built from VERIF_REPO) vs extracted check_step on every event",
     ))
     lib.write_evidence(PID, ctx.tier, ctx.seed, cov,
                        ["Go runtime semantics (maps, slices, uint64)", "extraction + OCaml compiler"],
